@@ -13,6 +13,10 @@ WHAT IT DOES (theorems by kernel computation on images regenerated from the curr
         b<k>_c0:  hex.hex 0xA                     ; non-zero canaries around every variable
         b<k>_v0:  hex.vec n           ...
 
+    Composition: `pair` blocks call two macros of the composition class one after the other on shared variables (spec =
+    seq_spec); `rerun` blocks send the fall-through exit back to the block entry once (harness flag b<k>_rf), so the SAME
+    code instance runs twice and its second pass starts from the temporaries/carry/table state the first one left.
+
  2. Blocks are packed into IMAGES per (namespace, w).  Every block is first assembled alone (worker stl_asm, the
     CURRENT assembler + stl of fw.REPO): this isolates an assembly failure to its macro and measures sizes; then the
     images are assembled and read back with the real Reader.  Label addresses come from the debug-label file.
@@ -45,6 +49,7 @@ else of C08 (explicit-list domains, pointer-cell consistency clause, its own run
 Input-consuming macros need `init ... input` in StlRun.check_block (currently the input is empty) - extend
 check_block with an input parameter, the machinery here passes operands only through memory.
 """
+import atexit
 import dataclasses
 import itertools
 import os
@@ -78,6 +83,10 @@ class Config:
     quick_n2_fraction: float = 0.10
     quick_n2: dict = field(default_factory=dict)     # parameter dict of the seed-chosen larger quick instance
     quick_n2_cases: int = 70_000
+    reruns_quick: int = 10
+    sweep_max: int = 16             # size sweep 1..sweep_max (digits of the namespace)
+    sweep_max_quadratic: int = 16   # ... for macros whose code size grows with n^2
+    sweep_extra: int = 0            # two more seed-chosen sizes in sweep_max+1..sweep_extra for the linear macros
 
 
 @dataclass
@@ -93,6 +102,7 @@ class Block:
     temps: list                 # [(local label, ops)]
     params: dict
     kind: str = 'single'        # single | pair | sample
+    rerun: bool = False         # the block executes its macro code TWICE (same code instance, dirty temporaries)
     guard: str = ''             # Coq/python predicate instance of a known defect (theorem is stated for `guarded`)
     witnesses: list = field(default_factory=list)
     w: int = 64
@@ -102,6 +112,7 @@ class Block:
     addr: dict = field(default_factory=dict)
     ops: int = 0
     words: int = 0
+    est_words: int = 0
     asm_error: str = ''
 
     def ncases(self):
@@ -217,6 +228,21 @@ def make_pair(cfg, e1, e2, w):
                  params={'n': n}, kind='pair', w=w)
 
 
+def make_rerun(entry, params, w):
+    """the same macro CODE INSTANCE executed twice (a harness flag sends the fall-through exit back to the block entry once):
+    the second pass starts from the temporaries / table state the first one left; spec = spec ; spec"""
+    b = make_block(entry, params, w)
+    idx = list(range(len(b.vars)))
+    b.spec = ('seq', [(idx, b.spec), (idx, b.spec)])
+    b.bid = 'rerun_' + b.bid
+    b.title = 'twice (same code instance): ' + b.title
+    b.kind = 'pair'
+    b.macro = f'{entry["name"]};{entry["name"]}'
+    b.rerun = True
+    b.witnesses = []
+    return b
+
+
 def plan_blocks(ctx, cfg):
     """returns (theorem blocks, sample-only blocks)"""
     tier = ctx.tier
@@ -251,6 +277,21 @@ def plan_blocks(ctx, cfg):
                     smp.append(make_block(e, p, widths[0], kind='deep-sample'))
         for p in e['inst']['sample']:
             smp.append(make_block(e, p, widths[0], kind='sample'))
+        if e.get('sweep'):
+            # size sweep (tests on the real engines): the whole size range for size-critical macros / in thorough
+            top = cfg.sweep_max
+            if re.search(SP.QUADRATIC, e['name']):
+                top = min(top, cfg.sweep_max_quadratic)
+            crit = re.search(SP.SIZE_CRITICAL, e['name']) is not None
+            sizes = list(range(1, top + 1)) if (crit or tier == 'thorough') else sorted(ctx.rng.sample(range(1, top + 1), 4))
+            if cfg.sweep_extra and not re.search(SP.QUADRATIC, e['name']):
+                sizes += sorted(ctx.rng.sample(range(top + 1, cfg.sweep_extra + 1), 2))
+            have = {b.bid for b in smp}
+            for n in sizes:
+                b = make_block(e, e['sweep'](n, ctx.rng), widths[0], kind='sweep')
+                if b.bid not in have:
+                    have.add(b.bid)
+                    smp.append(b)
     seqs = [e for e in cfg.table if e['seq']]
     pairs = [(a, b) for a in seqs for b in seqs]
     if tier == 'quick':
@@ -261,6 +302,15 @@ def plan_blocks(ctx, cfg):
         for w in widths[1:]:
             for a, b in ctx.rng.sample(pairs, max(1, len(pairs) // 10)):
                 thm.append(make_pair(cfg, a, b, w))
+    # the same code instance run twice: every non-branching macro that has temporaries or belongs to the composition class
+    reruns = [e for e in cfg.table if (e['temps'] or e['seq']) and e['inst']['quick']]
+    if tier == 'quick':
+        reruns = ctx.rng.sample(reruns, min(cfg.reruns_quick, len(reruns)))
+    for e in reruns:
+        p = min(e['inst']['quick'], key=lambda q: (not q.get('pin'), q.get('n', 1)))
+        if len(e['vars']) >= 4 and not p.get('pin') and e['pin']:
+            p = dict(p, pin=1)
+        thm.append(make_rerun(e, p, widths[0]))
     return thm, smp, [e['name'] for e in boosted]
 
 
@@ -277,6 +327,8 @@ def block_text(b, k, literal=None):
     lines = [f'{pre}:']
     for c in b.calls:
         lines.append('    ' + c.format_map(_Keep(env)))
+    if b.rerun:
+        lines += [f'    bit.if {pre}_rf, {pre}_ra, {pre}_l0', f'{pre}_ra:', f'    bit.not {pre}_rf', f'    ;{pre}']
     lines.append(f'{pre}_l0: stl.loop')
     for i in range(1, b.exits + 1):
         lines.append(f'{pre}_x{i}: stl.output_char {0x30 + i}')
@@ -288,6 +340,8 @@ def block_text(b, k, literal=None):
         lines.append(f'{pre}_v{i}: {kind}.vec {n}{val}')
     last = b.vars[-1][1] if b.vars else 'hex'
     lines.append(f'{pre}_cz: ' + ('hex.hex 0xC' if last == 'hex' else 'bit.bit 1'))
+    if b.rerun:
+        lines.append(f'{pre}_rf: bit.bit 0')
     return '\n'.join(lines) + '\n'
 
 
@@ -339,6 +393,8 @@ def resolve_block(b, k, res, w, extra_scratch):
             found[nm] = found.get(nm, 0) + 1
             for j in range(tsz[nm]):
                 scratch[(a >> ww) + 1 + 2 * j] = allm
+    if b.rerun:
+        scratch[(L[f'{pre}_rf'] >> ww) + 1] = allm          # the harness' own "second pass" flag
     for lbl, (nops, mask) in extra_scratch.items():
         if lbl in L:
             for j in range(nops):
@@ -349,7 +405,14 @@ def resolve_block(b, k, res, w, extra_scratch):
     b.k = k
 
 
-def assemble_blocks(ctx, cfg, blocks, tag):
+_SIZE_HINT = {}     # macro -> (size parameter, words) measured by the individual assemblies of this run
+
+
+def _size_param(b):
+    return max([v for k, v in b.params.items() if k in ('n', 'dn', 'fn', 'nb')] or [1])
+
+
+def assemble_blocks(ctx, cfg, blocks, tag, presize=True):
     """individual assembly (sizes + isolation of failures), packing into images, image assembly.
     returns list of images: {'name','w','blocks','res'} ; blocks that do not assemble get b.asm_error"""
     d = str(ctx.scratch / 'asm')
@@ -360,6 +423,8 @@ def assemble_blocks(ctx, cfg, blocks, tag):
             for w in ws]
     singles = {}
     for b in blocks:
+        if not presize and b.w != 16:
+            continue
         if b.kind != 'pair' and (b.w == ws[-1] or b.w == 16):      # sizes are measured at the largest width (and at 16: tight space)
             key = (b.bid, b.w)
             singles[key] = b
@@ -378,16 +443,23 @@ def assemble_blocks(ctx, cfg, blocks, tag):
         r = byname[f'{tag}_one_{bid}_w{w}']
         if not r['ok']:
             b.asm_error = r.get('error', '?')
+            if w == 16 and 'memory-width' in b.asm_error:
+                b.asm_error = 'NOFIT: ' + b.asm_error[:300]       # the block does not fit into the 2^16-bit address space
         else:
             b.words = r['nwords'] - base[w]
             size_of_macro.setdefault(b.macro, b.words)
+            if b.macro not in _SIZE_HINT or _size_param(b) > _SIZE_HINT[b.macro][0]:
+                _SIZE_HINT[b.macro] = (_size_param(b), b.words)
     size_of_bid = {bid: b.words for (bid, w), b in singles.items() if w == ws[-1]}
     for b in blocks:
         if b.kind == 'pair':
             m1, m2 = b.macro.split(';')
             b.words = 40 + sum(size_of_macro.get(m, 400) for m in (m1, m2))
         elif (b.bid, b.w) not in singles:
-            b.words = size_of_bid.get(b.bid, 2000)
+            if b.macro in _SIZE_HINT:
+                n0, w0 = _SIZE_HINT[b.macro]
+                b.est_words = int(w0 * (_size_param(b) / n0) ** (2 if re.search(SP.QUADRATIC, b.macro) else 1)) + 50
+            b.words = size_of_bid.get(b.bid, b.est_words or 2000)
             twin = singles.get((b.bid, ws[-1]))
             if twin is not None and twin.asm_error:
                 b.asm_error = twin.asm_error
@@ -413,16 +485,34 @@ def assemble_blocks(ctx, cfg, blocks, tag):
                      'want_words': True})
     res = _asm_jobs(ctx, jobs)
     good = []
+    retry = []
     for im, r in zip(images, res):
         im['res'] = r
         if not r['ok']:
-            for b in im['blocks']:
-                b.asm_error = 'image assembly failed: ' + r.get('error', '?')
+            if len(im['blocks']) > 1 and not im.get('retry'):
+                retry.append(im)
+            else:
+                for b in im['blocks']:
+                    b.asm_error = 'image assembly failed: ' + r.get('error', '?')
             continue
         for k, b in enumerate(im['blocks']):
             resolve_block(b, k, r, im['w'], cfg.extra_scratch)
             b.image = im['name']
         good.append(im)
+    if retry:
+        # an image that does not assemble as a whole: one image per block isolates the offending macro
+        singles_imgs = [{'w': im['w'], 'blocks': [b], 'retry': True, 'name': f'{im["name"]}r{j}'}
+                        for im in retry for j, b in enumerate(im['blocks'])]
+        jobs = [{'name': im['name'], 'fj': program_text(cfg, im['blocks']), 'w': im['w'], 'dir': d, 'temps': temps, 'want_words': True}
+                for im in singles_imgs]
+        for im, r in zip(singles_imgs, _asm_jobs(ctx, jobs)):
+            im['res'] = r
+            if not r['ok']:
+                im['blocks'][0].asm_error = r.get('error', '?')
+                continue
+            resolve_block(im['blocks'][0], 0, r, im['w'], cfg.extra_scratch)
+            im['blocks'][0].image = im['name']
+            good.append(im)
     return good
 
 
@@ -448,7 +538,8 @@ def sample_operands(rng, b, count):
         span = hi - lo
         e = {lo, hi - 1, lo + span // 2, lo + (span // 2 - 1 if span > 1 else 0), lo + min(1, span - 1)}
         if span > 16:
-            e |= {lo + 10 % span, lo + span - 2, lo + (0x5a5a5a5a5a5a5a5a5a % span)}
+            e |= {lo + 10 % span, lo + span - 2, lo + (0x5a5a5a5a5a5a5a5a5a % span), lo + (span >> 4), lo + (span >> 4) - 1,
+                  lo + 16 % span, lo + (span >> 8)}
         edges.append(sorted(e))
     combos = list(itertools.islice(itertools.product(*edges), 4096))
     rng.shuffle(combos)
@@ -705,9 +796,24 @@ def coqc_many(paths, timeout):
         return dict(ex.map(one, paths))
 
 
+def gen_prefixes(tag):
+    return [f'{k}_{tag}_' for k in ('Img', 'StlP', 'StlT', 'StlTie', 'StlD')] + [f'{k}_{tag}s_' for k in ('Img',)]
+
+
 def clean_gen(prefixes):
     for p in GEN.iterdir():
         if any(p.name.startswith(x) for x in prefixes) and p.name != '.keep':
+            try:
+                p.unlink()
+            except OSError:
+                pass
+
+
+def clean_stale_gen():
+    """remove generated stl files left behind by runs whose process no longer exists"""
+    for p in GEN.iterdir():
+        m = re.match(r'\.?(Img|StlP|StlT|StlTie|StlD)_C\d\dp(\d+)s?_', p.name)
+        if m and not Path(f'/proc/{m.group(2)}').exists():
             try:
                 p.unlink()
             except OSError:
@@ -772,7 +878,7 @@ def report_failure(ctx, cfg, b, values, exp, model_obs, engine_obs, verdicts, or
               'variables': [f'{kind}.vec {n}' for _, kind, n in b.vars],
               'model_observation': model_obs, 'engine_observation': engine_obs, 'found_by': origin,
               'fj_program': standalone_program(cfg, b, values), 'startup': cfg.startup, 'ns': cfg.ns,
-              'block_def': {'calls': b.calls, 'vars': b.vars, 'exits': b.exits, 'temps': b.temps, 'dom': b.dom, 'bid': b.bid},
+              'block_def': {'calls': b.calls, 'vars': b.vars, 'exits': b.exits, 'temps': b.temps, 'dom': b.dom, 'bid': b.bid, 'rerun': b.rerun},
               'how': f'./check {ctx.prop} --replay <this file>   (assembles fj_program with the current repo, runs it on the real engine, '
                      'compares the variables with expected_values)'}
     ctx.violation(sig, what, replay)
@@ -785,7 +891,10 @@ def run_property(ctx, cfg):
         cfg = dataclasses.replace(cfg, table=[e for e in cfg.table if re.search(only, e['name'])])
     prop = ctx.prop
     fw.static_proofs(ctx, [f'Properties/{prop}.v'])
-    clean_gen([f'Img_{prop}_', f'StlP_{prop}_', f'StlT_{prop}_', f'StlTie_{prop}_', f'StlD_{prop}_'])
+    # generated files carry the pid of this run in their names: concurrent runs of the same check cannot clobber each other
+    tag = f'{prop}p{os.getpid()}'
+    clean_stale_gen()
+    atexit.register(clean_gen, gen_prefixes(tag))
     dc = DistinctCount()
     ctx._distinct = dc
     cov = ctx.coverage
@@ -805,20 +914,24 @@ def run_property(ctx, cfg):
     # ---- blocks and images
     thm_blocks, smp_blocks, boosted = plan_blocks(ctx, cfg)
     try:
-        images = assemble_blocks(ctx, cfg, thm_blocks, prop)
-        smp_images = assemble_blocks(ctx, cfg, smp_blocks, prop + 's')
+        images = assemble_blocks(ctx, cfg, thm_blocks, tag)
+        smp_images = assemble_blocks(ctx, cfg, smp_blocks, tag + 's', presize=False)
     except RuntimeError as e:
         # not even `<startup> ; stl.loop` assembles: nothing can be regenerated, every instance theorem is void
         ctx.broken_tie(f'{prop}: the harness start-up program does not assemble with the current assembler/stl', str(e))
         cov['obligations'] += len(thm_blocks)
         return
+    nofit = []
     for b in thm_blocks + smp_blocks:
-        if b.asm_error:
+        if b.asm_error.startswith('NOFIT'):
+            nofit.append(f'{b.title} w={b.w}')
+        elif b.asm_error:
             ctx.broken_tie(f'assembly of harness block {b.title} (w={b.w})', b.asm_error)
+    cov['does_not_fit_in_address_space'] = nofit
     t_asm = time.time()
 
     # ---- real engines on sampled operands (tests; also measures op counts)
-    nsamp = {'single': ctx.n(6, 10), 'pair': ctx.n(4, 4), 'sample': ctx.n(8, 24), 'deep-sample': 400}
+    nsamp = {'single': ctx.n(6, 10), 'pair': ctx.n(4, 4), 'sample': ctx.n(8, 24), 'deep-sample': 400, 'sweep': ctx.n(5, 8)}
     jobs, meta = [], []
     for im in images + smp_images:
         ww = im['w'].bit_length() - 1
@@ -985,8 +1098,13 @@ def run_property(ctx, cfg):
     cov['estimated_machine_steps'] = total_steps
     cov['quick_seed_chosen_larger_instances'] = boosted
     cov['images'] = [{'name': im['name'], 'w': im['w'], 'words': im['res']['nwords'], 'blocks': len(im['blocks'])} for im in images]
-    cov['sampled_only'] = sorted({f'{b.title} w={b.w}' for b in smp_blocks if not b.asm_error})
-    cov['checker_cmd'] += f' ; coqc (parallel, {fw.NCPU} jobs) on coq/Gen/Img_{prop}_*.v StlP_{prop}_*.v StlT_{prop}_*.v StlTie_{prop}_*.v'
+    cov['sampled_only'] = sorted({f'{b.title} w={b.w}' for b in smp_blocks if not b.asm_error and b.kind != 'sweep'})
+    sw = {}
+    for b in smp_blocks:
+        if b.kind == 'sweep' and not b.asm_error:
+            sw.setdefault(b.macro, []).append(' '.join(f'{k}={v}' for k, v in b.params.items()))
+    cov['size_sweep_sampled'] = sw
+    cov['checker_cmd'] += f' ; coqc (parallel, {fw.NCPU} jobs) on coq/Gen/Img_{tag}_*.v StlP_{tag}_*.v StlT_{tag}_*.v StlTie_{tag}_*.v'
     cov['timing_s'] = {'assembly': round(t_asm - t_start, 1), 'engines': round(t_eng - t_asm, 1),
                        'coq_pieces': round(t_pieces - t_eng, 1), 'rest': round(t_end - t_pieces, 1)}
     cov['trusted_base'] += [
@@ -998,8 +1116,8 @@ def run_property(ctx, cfg):
         'composition: ordered pairs of macros at one size over shared variables; longer sequences are not covered (_partial)',
         'block-local temporaries declared by the macros themselves and word 0 bit 0 / the IO word bits 0-1 are scratch',
         'the run starts from the assembled image: every theorem is about THIS image (w, layout), not about all placements']
-    if not fw_keep_gen():
-        clean_gen([f'Img_{prop}_', f'StlP_{prop}_', f'StlT_{prop}_', f'StlTie_{prop}_', f'StlD_{prop}_'])
+    if fw_keep_gen():
+        atexit.unregister(clean_gen)
 
 
 def fw_keep_gen():
@@ -1099,7 +1217,8 @@ def replay(ctx, cfg, path):
     bd = rp['block_def']
     b = Block(bid=bd['bid'], title=rp['block'], macro=rp['macro'], calls=bd['calls'], vars=[tuple(v) for v in bd['vars']],
               exits=bd['exits'], spec=rp['spec'] if isinstance(rp['spec'], str) else ('seq', [(i, s) for i, s in rp['spec'][1]]),
-              dom=[tuple(d) for d in bd['dom']], temps=[tuple(t) for t in bd['temps']], params=rp['params'], w=rp['w'])
+              dom=[tuple(d) for d in bd['dom']], temps=[tuple(t) for t in bd['temps']], params=rp['params'], w=rp['w'],
+              rerun=bd.get('rerun', False))
     w = rp['w']
     ww = w.bit_length() - 1
     d = str(ctx.scratch / 'replay')
